@@ -69,6 +69,9 @@ SPECS = [
     ('vargs', "a, b='db', *args", ['a', 'b'], {'b': 'db'}, [], True, False, 'a', 'b'),
     ('vkw', "a, b='db', **kw", ['a', 'b'], {'b': 'db'}, [], False, True, 'a', 'b'),
     ('allin', "a, b='db', *args, k='dk', **kw", ['a', 'b'], {'b': 'db', 'k': 'dk'}, ['k'], True, True, 'b', 'k'),
+    # parameter names that helpers inside a library like to use for themselves
+    ('kwnames', "fn='dfn', scope='dsc', *, name='dn'", ['fn', 'scope'], {'fn': 'dfn', 'scope': 'dsc', 'name': 'dn'}, ['name'], False,
+     False, 'fn', 'scope'),
 ]
 
 
@@ -287,8 +290,11 @@ def bound(tier):
 def params(tier):
   if tier == 'quick':
     return (['', 's', 's/t', 't'], ['', 's/t'], ['s'],
-            [list(t) for n in range(3) for t in itertools.product('st', repeat=n)])
-  act = [list(t) for n in range(4) for t in itertools.product('stu', repeat=n)] + [['s', 't', 'u', 's']]
+            [list(t) for n in range(3) for t in itertools.product('st', repeat=n)] +
+            # scope names of which a bound scope's name is a mere STRING prefix: not a prefix of the active scope
+            [['sx'], ['s_1', 't'], ['t', 'st']])
+  act = [list(t) for n in range(4) for t in itertools.product('stu', repeat=n)] + [['s', 't', 'u', 's']] + [
+      ['sx'], ['s_1', 't'], ['t', 'st'], ['s', 'tx'], ['sx', 't']]
   return (['', 's', 's/t', 's/t/u', 't', 's/u'], ['', 's/t', 's/t/u'], ['s', 't'], act)
 
 
